@@ -205,6 +205,11 @@ FIXED = [
     ("INT N=0-3 WHILE(N){ PRINT(N) n60 N++ } PRINT(N)", "(() ((decl N (b 4 0 3)) (while N ((print N) (note 60) (inc N 1))) (print N)))"),
     ("FOR(INT I=0-2; I; I++){ PRINT(I) n61 } PRINT(I)", "(() ((for I (b 4 0 2) I (inc I 1) ((print I) (note 61))) (print I)))"),
     ("INT N=0-2 IF(N){ PRINT(1) }ELSE{ PRINT(2) } WHILE(N+1){ N++ PRINT(N) }", "(() ((decl N (b 4 0 2)) (if N ((print 1)) ((print 2))) (while (b 3 N 1) ((inc N 1) (print N)))))"),
+    # RETURN out of a loop whose condition is a bare literal ends the loop with the call: no further pass, no limit error
+    ("FUNCTION FIND(ND){ FOR(INT I=0; 1; I++){ IF(I*I>=ND){ RETURN(I) } } } PRINT(FIND(10)) PRINT(FIND(0))",
+     "(((fn FIND ((ND _)) ((for I 0 1 (inc I 1) ((if (b 8 (b 0 I I) ND) ((ret I)) ())))))) ((print (call FIND (10))) (print (call FIND (0)))))"),
+    ("FUNCTION FW(KA){ WHILE(1){ KA++ IF(KA>5){ RETURN(KA) } } } PRINT(FW(1)) FUNCTION FX(KA){ FOR(INT J=0; 7; J++){ FOR(INT K=0; 1; K++){ IF(K==2){ RETURN(J+K+KA) } } } } PRINT(FX(10))",
+     "(((fn FW ((KA _)) ((while 1 ((inc KA 1) (if (b 7 KA 5) ((ret KA)) ()))))) (fn FX ((KA _)) ((for J 0 7 (inc J 1) ((for K 0 1 (inc K 1) ((if (b 5 K 2) ((ret (b 3 (b 3 J K) KA))) ())))))))) ((print (call FW (1))) (print (call FX (10)))))"),
     # control flow written inside `Sub{ }` acts on the enclosing loop / call
     ("FOR(INT I=0;I<3;I++){ Sub{ n60 IF(I==1){BREAK} n62 } n64 PRINT(I) } PRINT(I)",
      "(() ((for I 0 (b 9 I 3) (inc I 1) ((note 60) (if (b 5 I 1) ((break)) ()) (note 62) (note 64) (print I))) (print I)))"),
